@@ -40,3 +40,27 @@ Proof.
   intros t H f fn pos w held ctor Hin. unfold table_ok in H. rewrite forallb_forall in H.
   specialize (H _ Hin). cbn in H. apply orb_true_iff in H. exact H.
 Qed.
+
+(* ---- lockset condition ---------------------------------------------------------------- *)
+Lemma mem_str_In : forall s l, mem_str s l = true <-> In s l.
+Proof.
+  intros s l. unfold mem_str. rewrite existsb_exists. split.
+  - intros [x [Hin Heq]]. apply String.eqb_eq in Heq. subst. exact Hin.
+  - intros Hin. exists s. split; [exact Hin | apply String.eqb_refl].
+Qed.
+
+(* every field that is accessed at all (outside fresh allocations) has a lock that is held at
+   every one of its accesses *)
+Theorem lockset_common_lock : forall t, lockset_ok t = true ->
+  forall a, In a t -> a2_exempt a = false ->
+  exists cls, In cls (a2_held a) /\
+    forall b, In b t -> a2_field b = a2_field a -> a2_exempt b = false -> In cls (a2_held b).
+Proof.
+  intros t H a Ha He. unfold lockset_ok in H. rewrite forallb_forall in H.
+  specialize (H a Ha). rewrite He in H. cbn [orb] in H.
+  apply existsb_exists in H. destruct H as [cls [Hcls Hg]].
+  exists cls. split; [exact Hcls|].
+  intros b Hb Hf Heb. unfold guards in Hg. rewrite forallb_forall in Hg.
+  specialize (Hg b Hb). rewrite Hf, String.eqb_refl, Heb in Hg. cbn in Hg.
+  apply mem_str_In. exact Hg.
+Qed.
